@@ -47,6 +47,25 @@ class LoggingSet(set):
                    obj='yes' if n else 'no')
         return n
 
+    # changes of the pause set are scheduling points of their own (a thread
+    # may be pre-empted between a notification and the update of the set)
+    def _point(self, kind):
+        s = self.sched
+        if s is not None and getattr(s._tls, 'rec', None) is not None:
+            s.yield_op(Op(kind))
+
+    def add(self, x):
+        self._point('pause_add')
+        set.add(self, x)
+
+    def remove(self, x):
+        self._point('pause_remove')
+        set.remove(self, x)
+
+    def discard(self, x):
+        self._point('pause_remove')
+        set.discard(self, x)
+
 
 class NameProbe(object):
     """Compares equal to any name and logs the execution of the command."""
@@ -224,31 +243,40 @@ def run_once(progs, chooser, maxcp=6, max_steps=3000):
                 errors=errors, done=list(done))
 
 
-def explore_bounded(progs, bound, maxcp, limit):
-    """All schedules with at most `bound` deviations from the default policy."""
+def explore_bounded(progs, bound, maxcp, limit, seed=0):
+    """Schedules with at most `bound` deviations from the default policy,
+    fewest deviations first: every single deviation is run before any double
+    one; when `limit` cuts a level short, its members are taken in a seeded
+    random order (not the latest deviation points only)."""
     out = []
     seen = set()
-    work = [dict()]
-    while work and len(out) < limit:
-        dev = work.pop()
-        key = tuple(sorted(dev.items()))
-        if key in seen:
-            continue
-        seen.add(key)
-        ch = Chooser(dev)
-        r = run_once(progs, ch, maxcp)
-        r['schedule'] = [c for (_, _, c) in ch.steps]
-        r['dev'] = sorted([k, v] for k, v in dev.items())
-        out.append(r)
-        if len(dev) < bound:
-            start = max(dev) + 1 if dev else 0
-            for k in range(start, len(ch.steps)):
-                names, d, c = ch.steps[k]
-                for a in names:
-                    if a != c:
-                        nd = dict(dev)
-                        nd[k] = a
-                        work.append(nd)
+    level = [dict()]
+    rng = random.Random('%s:%d' % (json.dumps(progs), seed))
+    while level and len(out) < limit:
+        nxt = []
+        for dev in level:
+            if len(out) >= limit:
+                break
+            key = tuple(sorted(dev.items()))
+            if key in seen:
+                continue
+            seen.add(key)
+            ch = Chooser(dev)
+            r = run_once(progs, ch, maxcp)
+            r['schedule'] = [c for (_, _, c) in ch.steps]
+            r['dev'] = sorted([k, v] for k, v in dev.items())
+            out.append(r)
+            if len(dev) < bound:
+                start = max(dev) + 1 if dev else 0
+                for k in range(start, len(ch.steps)):
+                    names, d, c = ch.steps[k]
+                    for a in names:
+                        if a != c:
+                            nd = dict(dev)
+                            nd[k] = a
+                            nxt.append(nd)
+        rng.shuffle(nxt)
+        level = nxt
     return out
 
 
@@ -268,7 +296,7 @@ def main():
     res = []
     if job['mode'] == 'bounded':
         res = explore_bounded(progs, job.get('bound', 2), job.get('maxcp', 6),
-                              job.get('limit', 5000))
+                              job.get('limit', 5000), job.get('seed', 0))
     elif job['mode'] == 'replay':
         ch = Chooser()
         sched = job['schedule']
